@@ -6,7 +6,7 @@
 //!   bwritefail <toks> <k> | blexbytes <hex> <n,n,..> | bparts <cap> <sched> <hex> <k> | bfits <cap> <hex> | blex <hex> | blexid <hex> | bpeek <hex> | bcut <hex> <k> | bwrite <toks>
 //!   bstream <cap> <sched> <hex> | bread <cap> <sched> <hex> | bcalls <cap> <sched> <hex> <n>
 //!   breadbytes <cap> <sched> <hex> <n,n,..>
-//!   bskip <cap> <sched> <hex> <k> | blexskip <hex> <k> | blexskipv <hex> <k>
+//!   bskip <cap> <sched> <hex> <k> | bskipretry <cap> <sched> <hex> <k> | blexskip <hex> <k> | blexskipv <hex> <k>
 //!   bufops <cap> <sched> <hex> <ops>
 //! <cap> = n (fresh buffer) | r<n> (recycled buffer full of 0xaa) | S (from_slice)
 #![allow(dead_code)]
@@ -779,6 +779,52 @@ fn exec_inner(w: &[&str], obs: &mut Obs) -> Option<String> {
             });
             Some(line)
         }
+        ["bskipretry", cw, sw, h, kw] => {
+            // skip_container after the k-th Open; when it returns the I/O error, the caller simply calls
+            // skip_container again (up to 6 times).  The depth counter is a local of the call.
+            let d = unhex(h)?;
+            let steps = sched::parse(sw)?;
+            let cap = parse_cap(cw)?;
+            let k: usize = kw.parse().ok()?;
+            let fr = lex_run(&d);
+            let fits = cap_value(&cap, d.len()) >= min_cap(&d);
+            let reference = balanced(&fr, k);
+            let line = with_reader(&cap, steps.clone(), &d, |rd, _st| {
+                let mut left = k;
+                loop {
+                    match rd.next_s() {
+                        Ok(Some((_, b'o'))) => { if left == 0 { break; } left -= 1; }
+                        Ok(Some(_)) => {}
+                        Ok(None) => return format!("noopen {}", rd.pos()),
+                        Err((e, _)) => return format!("pre:{} {}", e, rd.pos()),
+                    }
+                }
+                let mut retries = 0;
+                loop {
+                    match rd.skip_s() {
+                        Ok(()) => {
+                            let p = rd.pos();
+                            // L3: a skip completed by retrying must land where the fault-free skip lands
+                            if let Some(Ok(next)) = reference {
+                                if fits && fr.ends[next - 1] != p {
+                                    obs.violation("fault-retry-skip-depth", &case(), &format!("after {} retries landed at {} instead of {}", retries, p, fr.ends[next - 1]));
+                                }
+                            }
+                            let nx = match rd.next_s() { Ok(Some((t, _))) => t, Ok(None) => "end".to_string(), Err((e, _)) => e.to_string() };
+                            obs.count(&format!("bskipretry:ok:{}", retries.min(3)));
+                            return format!("retries:{} ok {} {} {}", retries, p, nx, rd.pos());
+                        }
+                        Err(("err:io", _)) if retries < 6 => { retries += 1; }
+                        Err((e, ep)) => {
+                            if let Some(Ok(_)) = reference { if fits && e != "err:io" { obs.violation("fault-retry-skip-depth", &case(), &format!("after {} retries: {}", retries, e)); } }
+                            obs.count(&format!("bskipretry:{}", e));
+                            return format!("retries:{} {} {} {}", retries, e, ep, rd.pos());
+                        }
+                    }
+                }
+            });
+            Some(line)
+        }
         ["blexskip", h, kw] => {
             let d = unhex(h)?;
             let k: usize = kw.parse().ok()?;
@@ -1418,6 +1464,33 @@ pub fn gen_fault(g: &mut Gen) {
         g.emit(format!("bcalls {} {} {} {}", cap, s, h, ntoks + 8));
     }
     g.count("faults-at-every-call");
+
+    // retried skip_container after a transient fault (probe of a candidate finding: the depth counter is
+    // a local of the call, so a retry inside a nested container lands at the first inner close)
+    for (sw, h) in [("4,F,R8", "030003000400e12804000100"), ("2,F,R8", "030003000400e12804000100"), ("6,F,R8", "030003000400e12804000100"),
+                    ("2,F,R8", "0300e128e12804000100"), ("1,1,1,1,F,R1", "03000300030004000400040001000"), ("R2", "030003000400e12804000100")] {
+        if h.len() % 2 == 0 { g.emit(format!("bskipretry 8 {} {} 0", sw, h)); }
+    }
+    let n = g.budget(120, 3000);
+    for _ in 0..n {
+        let d = gen_skip_input(g);
+        if d.len() > 200 { continue; }
+        let fr = lex_run(&d);
+        let opens = fr.kinds.iter().filter(|c| **c == b'o').count();
+        if opens == 0 { continue; }
+        let k = g.rng.below(opens);
+        let cap = gen_cap(g, &d);
+        let mut steps = match g.rng.below(3) { 0 => vec![Step::Repeat(1)], 1 => vec![Step::Repeat(2)], _ => gen_sched(g, d.len()) };
+        let nf = g.rng.range(1, 3);
+        for _ in 0..nf {
+            // materialise a few leading gives so that the fault falls inside the run
+            let at = g.rng.below(steps.len().min(12) + 1);
+            if let Some(Step::Repeat(r)) = steps.first().cloned() { let m = g.rng.range(0, 12); steps = (0..m).map(|_| Step::Give(r)).chain(std::iter::once(Step::Fail)).chain(std::iter::once(Step::Repeat(r))).collect(); }
+            else { steps.insert(at, Step::Fail); }
+        }
+        g.emit(format!("bskipretry {} {} {} {}", cap, sched::show(&steps), hex(&d), k));
+    }
+    g.count("skip-retry-probe");
 }
 
 pub fn gen(g: &mut Gen) {
